@@ -88,6 +88,7 @@ def _run_task(args):
             out["limit"] = "; ".join(sorted(set(stats["limits"])))
         out["stats"] = {k: (v if not isinstance(v, set) else sorted(v)) for k, v in stats.items()}
         seen_cover = set()
+        cex_built = {}
         for o in obs:
             if o.name in skip:
                 out["results"].append({"name": o.name, "kind": o.kind, "tags": o.info.get("tags") or [],
@@ -99,7 +100,9 @@ def _run_task(args):
             rec = {"name": o.name, "kind": o.kind, "tags": o.info.get("tags") or [], "status": r["status"],
                    "backend": r["backend"], "seconds": round(r["seconds"], 4), "reason": r.get("reason", ""),
                    "pathlen": len(o.trace)}
-            if r["status"] == "refuted" and r.get("model") is not None and o.info.get("cex") is not None:
+            if r["status"] == "refuted" and r.get("model") is not None and o.info.get("cex") is not None \
+                    and cex_built.get(o.name, 0) < 3:
+                cex_built[o.name] = cex_built.get(o.name, 0) + 1
                 try:
                     rec["cex"] = o.info["cex"](r["model"])
                 except Exception as e:
